@@ -4,7 +4,7 @@
   * every `pub const FONT_*` of src/mono_font/generated/*.rs -> one `bfont` row: name "<module>::<CONST>",
     byte length and bitmap digest (FNV-1a over the rows) of the include_bytes! file, mapping id, image size, character size, spacing, baseline,
     underline and strikethrough (offset, height) with the constant expressions (`4 + 2`, `13 / 2`) evaluated
-    in u32 arithmetic;
+    in u32 arithmetic; and the crate-private `NULL_FONT` of src/mono_font/mod.rs as the separate definition `null_font`;
   * every mapping of the `impl_mapping!` table in src/mono_font/mapping.rs -> one `bmapping` row: name, the
     string literal as code points (NUL range markers kept), its expansion exactly as StrGlyphMapping::chars
     walks it (the Coq side re-derives the expansion with its own model and proves both equal), and the
@@ -240,6 +240,47 @@ def read_fonts(mapping_names):
     return rows
 
 
+# ------------------------------------------------------------------ mod.rs: NULL_FONT (default font of MonoTextStyleBuilder)
+NULL_RE = re.compile(
+    r'const NULL_FONT: MonoFont = MonoFont \{\s*'
+    r'image: ImageRaw::new_const\(&\[\], (Size::zero\(\)|Size::new\([^()]*\))\),\s*'
+    r'character_size: (Size::zero\(\)|Size::new\([^()]*\)),\s*'
+    r'character_spacing: ([^,]+),\s*'
+    r'baseline: ([^,]+),\s*'
+    r'strikethrough: DecorationDimensions::new\(([^,]+),([^,()]+)\),\s*'
+    r'underline: DecorationDimensions::new\(([^,]+),([^,()]+)\),\s*'
+    r'glyph_mapping: &mapping::(\w+),\s*'
+    r'\};')
+
+
+def size_of(txt, where):
+    if txt == 'Size::zero()':
+        return 0, 0
+    m = re.fullmatch(r'Size::new\(([^,]+),([^,]+)\)', txt)
+    if not m:
+        die('%s: size %r not understood' % (where, txt))
+    return ev(m.group(1), where), ev(m.group(2), where)
+
+
+def read_null_font(mapping_names):
+    path = os.path.join(REPO, 'src', 'mono_font', 'mod.rs')
+    code = re.sub(r'^\s*//.*$', '', open(path, encoding='utf-8').read(), flags=re.M)
+    if len(re.findall(r'\bNULL_FONT\s*:', code)) != 1:
+        die('mod.rs: expected exactly one NULL_FONT constant')
+    m = NULL_RE.search(code)
+    if not m:
+        die('mod.rs: NULL_FONT does not have the shape `MonoFont { image: ImageRaw::new_const(&[], <size>), character_size, '
+            'character_spacing, baseline, strikethrough, underline, glyph_mapping }`')
+    where = 'mod.rs NULL_FONT'
+    iw, ih = size_of(m.group(1), where)
+    cw, ch = size_of(m.group(2), where)
+    if m.group(9) not in mapping_names:
+        die('%s: unknown mapping %s' % (where, m.group(9)))
+    sp, base, so, sh, uo, uh = [ev(m.group(k), where) for k in (3, 4, 5, 6, 7, 8)]
+    # data is the empty slice: raw length 0, digest of no bytes
+    return ('null::NULL_FONT', 0, mapping_names.index(m.group(9)), [iw, ih, cw, ch, sp, base, uo, uh, so, sh], 0xcbf29ce484222325 & ((1 << 60) - 1))
+
+
 def zl(xs):
     return '[' + ';'.join(str(x) for x in xs) + ']'
 
@@ -276,6 +317,12 @@ def main():
             where, name_codes(where), rawlen, dig, mi, v[0], v[1], v[2], v[3], v[4], v[5], v[6], v[7], v[8], v[9]))
     L.append(';\n'.join(rows))
     L.append('].')
+    L.append('')
+    where, rawlen, mi, v, dig = read_null_font(names)
+    L.append('(* src/mono_font/mod.rs NULL_FONT: the crate-private default font of MonoTextStyleBuilder::new() (not a row of `fonts`) *)')
+    L.append('Definition null_font : bfont :=')
+    L.append('  BFont %s %d %d %d (Font %d %d %d %d %d %d (Deco %d %d) (Deco %d %d)).' % (
+        name_codes(where), rawlen, dig, mi, v[0], v[1], v[2], v[3], v[4], v[5], v[6], v[7], v[8], v[9]))
     L.append('')
     txt = '\n'.join(L)
     os.makedirs(os.path.dirname(OUT), exist_ok=True)
